@@ -344,9 +344,11 @@ def C15(ctx):
     T.c03_t3(ctx, f)
     E.c15_r1(ctx, f, ct)
     R.c08_r1(ctx, f, rid="C15.R2")
-    G.prepare(ctx, f, {"blank", "format"})
+    G.prepare(ctx, f, {"blank", "format", "place"})
     G.c03_r3(ctx, f, rid="C15.R3")
     G.c04_r3(ctx, f, rid="C15.R4", only_outside=True)
+    G.c01_r5(ctx, f, rid="C15.R5")
+    S.c12_r2(ctx, ctx.facts("svg"))
     witness.rule(ctx, "C15.W1", "callback slot is fn(usize, usize, Module) -> String; ModuleType has the eight documented regions",
                  ["w_c15_callback_type", "w_c15_module_types"])
     return dict(
